@@ -780,6 +780,323 @@ def oracle(g, tmp, tag='o'):
     return V, info
 
 
+# ------------------------------------------------------------------ sequence facet (hidden state)
+# The oracle above only ever looks at fresh objects.  Here the public API is taken through multi-step orders on the SAME object / in
+# the SAME process and every result is judged against what a fresh mulgrid(file) gives for the same file:
+#   reuse : g = mulgrid(fA) [or mulgrid().read(fA)]; g.read(fB); (g.read(fC))   -> g must equal mulgrid(fB) (mulgrid(fC))
+#   reload: g = build / mulgrid(f0); g.write(f); <edits>; g.read(f)                -> g must equal mulgrid(f)
+#   order : several files read in one process in different orders                -> each file gives the same state whatever came before
+# "equal" = same canonical dump (dump_real + consistency of the name indexes) and the same bytes when written again.
+
+KEY_CARRY = 'reuse-keeps-blank-header-fields'
+# header columns of the MULgraph file (mulgrid_format_specification['header']); a field left blank in the file is "ignored" by
+# read_value_line, so an object in use keeps its old value: reported as its own class (see seq_compare)
+SEQ_HDR_COLS = {'atmosphere_volume': (7, 17), 'atmosphere_connection': (17, 27), 'gdcx': (32, 42), 'gdcy': (42, 52), 'cntype': (52, 53),
+                'permeability_angle': (53, 63), 'block_order': (63, 65)}
+SEQ_ORIGINALS = ['g1', 'g3', 'g5', 'g6', 'g7']
+
+
+def seq_state(g):
+    d = dump_real(g)
+    idx = {}
+    for nm, lst, dct in (('node', g.nodelist, g.node), ('column', g.columnlist, g.column), ('layer', g.layerlist, g.layer), ('well', g.welllist, g.well)):
+        idx[nm] = [sorted(dct.keys()), all(dct.get(x.name) is x for x in lst)]
+    idx['connection'] = [sorted(list(k) for k in g.connection.keys()),
+                         all(g.connection.get(tuple(c.name for c in k.column)) is k for k in g.connectionlist)]
+    idx['column_nodes'] = all(g.node.get(n.name) is n for c in g.columnlist for n in c.node)
+    idx['connection_columns'] = all(g.column.get(c.name) is c for k in g.connectionlist for c in k.column)
+    d['index'] = idx
+    return d
+
+
+def _cj(x):
+    return json.dumps(x, sort_keys=True, default=repr)
+
+
+def _first_diff(a, b):
+    if isinstance(a, list) and isinstance(b, list):
+        for i, (x, y) in enumerate(zip(a, b)):
+            if _cj(x) != _cj(y): return 'entry %d: %s, fresh object has %s' % (i, _cj(x)[:110], _cj(y)[:110])
+        return '%d entries, fresh object has %d (first extra: %s)' % (len(a), len(b), _cj((a + b)[min(len(a), len(b))])[:110])
+    if isinstance(a, dict) and isinstance(b, dict):
+        for k in sorted(set(a) | set(b)):
+            if _cj(a.get(k)) != _cj(b.get(k)): return '%s: %s, fresh object has %s' % (k, _cj(a.get(k))[:110], _cj(b.get(k))[:110])
+    return '%s, fresh object has %s' % (_cj(a)[:110], _cj(b)[:110])
+
+
+def seq_compare(g, path, tmp, kind, label):
+    """the object g (after the sequence) against a fresh mulgrid(path). -> list of dict(key, what)"""
+    m = mg()
+    V = []
+
+    def bad(key, what):
+        V.append(dict(key=key, what='%s: %s' % (label, what)))
+    with quiet(): fresh = m.mulgrid(path)
+    F = seq_state(fresh)
+    try:
+        G = seq_state(g)
+    except Exception as e:
+        bad('sequence:%s:state-unreadable' % kind, 'the public state of the object cannot be read (%s: %s)' % (type(e).__name__, str(e)[:80]))
+        return V
+    with open(path) as fh: h = fh.readline().rstrip('\r\n').ljust(80)
+    carried = []
+    for k in sorted(F['hdr']):
+        if _cj(G['hdr'][k]) != _cj(F['hdr'][k]):
+            cols = SEQ_HDR_COLS.get(k)
+            if cols and not h[cols[0]:cols[1]].strip(): carried.append(k)
+            else: bad('sequence:%s:header' % kind, 'header option %s is %r, a fresh mulgrid(file) has %r' % (k, G['hdr'][k], F['hdr'][k]))
+    if carried:
+        bad(KEY_CARRY, 'header field(s) %s blank in the file keep the value the object had before read(): %s, a fresh mulgrid(file) has %s'
+            % (carried, [G['hdr'][k] for k in carried], [F['hdr'][k] for k in carried]))
+    for sec in ('nodes', 'columns', 'connections', 'layers', 'wells', 'blocks', 'bconns', 'index'):
+        a, b = G[sec], F[sec]
+        if sec in ('blocks', 'bconns') and 'block_order' in carried:
+            a, b = sorted(_cj(x) for x in a), sorted(_cj(x) for x in b)       # the order of the blocks follows the carried block order
+        if _cj(a) != _cj(b):
+            bad('sequence:%s:%s' % (kind, sec), '%s differ from a fresh mulgrid(file): %s' % (sec, _first_diff(a, b)))
+    # the same bytes when written again
+    out = []
+    for obj, nm in ((g, 'seq_wg.dat'), (fresh, 'seq_wf.dat')):
+        f = str(tmp / nm)
+        try:
+            with quiet(): obj.write(f)
+            with open(f) as fh: out.append(fh.read())
+        except Exception as e:
+            out.append('exc ' + type(e).__name__)
+    tg, tf = out
+    if carried and not tg.startswith('exc ') and not tf.startswith('exc '):
+        def mask(t):
+            l0, _, rest = t.partition('\n')
+            l0 = l0.ljust(80)
+            for k in carried:
+                c0, c1 = SEQ_HDR_COLS[k]
+                l0 = l0[:c0] + ' ' * (c1 - c0) + l0[c1:]
+            return l0.rstrip() + '\n' + rest
+        tg, tf = mask(tg), mask(tf)
+    if tg != tf:
+        la, lb = tg.split('\n'), tf.split('\n')
+        d = next(((x, y) for x, y in zip(la, lb) if x != y), ('<%d lines>' % len(la), '<%d lines>' % len(lb)))
+        bad('sequence:%s:rewrite' % kind, 'written again it gives %r where a fresh mulgrid(file) written again gives %r' % (d[0][:90], d[1][:90]))
+    return V
+
+
+def seq_read_raises(g_order, path, e, kind, label):
+    """read(path) raised on an object in use although a fresh mulgrid(path) reads the file. Attributed to the carried block order when
+    the file leaves that field blank and a fresh mulgrid(path) given the same block order raises the same exception class."""
+    m = mg()
+    with quiet(): fresh = m.mulgrid(path)                         # a file a fresh object cannot read either raises here: machinery
+    with open(path) as fh: h = fh.readline().rstrip('\r\n').ljust(80)
+    c0, c1 = SEQ_HDR_COLS['block_order']
+    if g_order is not None and not h[c0:c1].strip():
+        try:
+            with quiet(): fresh.block_order = g_order
+        except Exception as e2:
+            if type(e2) is type(e) and str(e2) == str(e):
+                return dict(key=KEY_CARRY, what='%s: block order blank in the file keeps the value %r the object had before read(), with which the '
+                            'file cannot be read (%s: %s)' % (label, g_order, type(e).__name__, str(e)[:80]))
+    return dict(key='sequence:%s:read-raises:%s' % (kind, type(e).__name__),
+                what='%s raises %s: %s (a fresh mulgrid(file) reads it)' % (label, type(e).__name__, str(e)[:80]))
+
+
+def seq_path(spec, tmp, cache):
+    """file spec ({'original': shipped name} or a geometry recipe) -> path of the file (recipes: built and written once)"""
+    if 'original' in spec:
+        return str(core.REPO / 'tests' / 'mulgrid' / (spec['original'] + '.dat'))
+    k = recipe_key(spec)
+    if k not in cache:
+        try:
+            g = build(spec)
+        except Exception as e:
+            cache[k] = Skip('unbuildable:' + type(e).__name__)
+            raise cache[k]
+        f = str(tmp / ('seq_f%d.dat' % len(cache)))
+        try:
+            with quiet(): g.write(f)
+            cache[k] = f
+        except ValueError as e:
+            if 'does not fit format' not in str(e): raise
+            cache[k] = Skip('beyond-10-columns')
+    if isinstance(cache[k], Skip): raise cache[k]
+    return cache[k]
+
+
+def seq_edit(g, ed):
+    """one edit of a geometry in use (public API only); ed is JSON-able"""
+    import random
+    import numpy as np
+    m = mg()
+    op = ed[0]
+    r2 = random.Random(ed[-1])
+    cl, ll = g.colname_length, g.layername_length
+
+    def newname(used, n):
+        return next(c[-n:] for c in ('zzz', 'zzy', 'qqx', 'QQW', 'y9z') if c[-n:] not in used)
+    if op == 'translate': g.translate(list(ed[1]), wells=bool(ed[2]))
+    elif op == 'rotate': g.rotate(ed[1], wells=bool(ed[2]))
+    elif op == 'refine':
+        names = [c.name for c in g.columnlist]
+        i0 = r2.randrange(len(names))
+        g.refine([g.column[n] for n in names[i0:i0 + ed[1]]])
+    elif op == 'rename_column':
+        g.rename_column(r2.choice([c.name for c in g.columnlist]), newname(g.column, cl))
+    elif op == 'rename_layer':
+        g.rename_layer(r2.choice([l.name for l in g.layerlist]), newname(g.layer, ll))
+    elif op == 'delete_column':
+        if len(g.columnlist) > 1: g.delete_column(r2.choice([c.name for c in g.columnlist]))
+    elif op == 'delete_layer':
+        if len(g.layerlist) > 2: g.delete_layer(g.layerlist[-1].name)
+    elif op == 'move_node':
+        nd = r2.choice(g.nodelist)
+        nd.pos = np.array(nd.pos) + np.array([r2.uniform(-3, 3), r2.choice([0.0, 0.25, -1.5])])
+    elif op == 'surface':
+        c = r2.choice(g.columnlist)
+        c.surface = g.layerlist[-1].bottom + r2.random() * (g.layerlist[0].bottom - g.layerlist[-1].bottom)
+        g.set_column_num_layers(c)
+    elif op == 'wells':
+        if g.welllist and r2.random() < 0.7:
+            w = r2.choice(g.welllist)
+            if r2.random() < 0.5: w.pos.append(np.array(w.pos[-1]) - np.array([0.5, 0.0, 12.5]))
+            else: g.delete_well(w.name)
+        else:
+            x, y = g.nodelist[0].pos
+            g.add_well(m.well('NEW 9', [np.array([x, y, 0.0]), np.array([x, y, -10.0])]))
+    elif op == 'header':
+        what = ed[1]
+        if what == 'atmosphere_type': g.atmosphere_type = (g.atmosphere_type + 1) % 3
+        elif what == 'permeability_angle': g.permeability_angle = g.permeability_angle + 15.0
+        elif what == 'atmosphere_volume': g.atmosphere_volume = 3.5e22
+        elif what == 'gdcx': g.gdcx = 0.75                      # blank in the file unless the recipe set it: KEY_CARRY class
+        else: raise ValueError(what)
+    else:
+        raise ValueError(op)
+
+
+def gen_seq_edits(rng):
+    out = []
+    for _ in range(rng.choice([1, 1, 2, 3])):
+        op = rng.choice(['translate', 'translate', 'rotate', 'refine', 'rename_column', 'rename_layer', 'delete_column', 'delete_layer',
+                         'move_node', 'surface', 'wells', 'wells', 'header'])
+        if op == 'translate': ed = [op, [rng.randint(-8000, 8000) / 16.0, rng.uniform(-300, 300), rng.choice([0.0, 3.0, -12.5])], rng.random() < 0.6]
+        elif op == 'rotate': ed = [op, rng.choice([30.0, 45.0, 90.0, -17.5]), rng.random() < 0.6]
+        elif op == 'refine': ed = [op, rng.randint(1, 4)]
+        elif op == 'header': ed = [op, rng.choice(['atmosphere_type', 'permeability_angle', 'atmosphere_volume', 'gdcx'])]
+        else: ed = [op]
+        out.append(ed + [rng.randint(0, 10 ** 6)])
+    return out
+
+
+def gen_seq_spec(rng, pool):
+    """a file: mostly one of a small pool of generated geometries (so that the same names meet again), sometimes a shipped original"""
+    if rng.random() < 0.2: return {'original': rng.choice(SEQ_ORIGINALS)}
+    return rng.choice(pool)
+
+
+def gen_seq_cases(rng, n_reuse, n_reload, n_order):
+    pool = [gen_recipe(rng, True, i) for i in range(max(6, (n_reuse + n_order) // 2))]
+    cases = []
+    for _ in range(n_reuse):
+        k = rng.choice([2, 2, 2, 3])
+        cases.append({'seq': 'reuse', 'files': [gen_seq_spec(rng, pool) for _ in range(k)], 'first': rng.choice(['ctor', 'read'])})
+    for i in range(n_reload):
+        rc = rng.choice(pool) if rng.random() < 0.5 else gen_recipe(rng, True, i)
+        cases.append({'seq': 'reload', 'recipe': rc, 'start': rng.choice(['built', 'file']), 'edits': gen_seq_edits(rng)})
+    for _ in range(n_order):
+        k = rng.randint(3, 4)
+        files = [gen_seq_spec(rng, pool) for _ in range(k)]
+        perm = list(range(k))
+        rng.shuffle(perm)
+        if perm == list(range(k)): perm.reverse()
+        cases.append({'seq': 'order', 'files': files, 'perm': perm})
+    return cases
+
+
+def seq_case(case, tmp, cache=None):
+    """run one sequence on the real code. -> (violations, info); Skip is reported in info['skip']"""
+    m = mg()
+    cache = {} if cache is None else cache
+    kind = case['seq']
+    V, info = [], {}
+    try:
+        if kind == 'reuse':
+            paths = [seq_path(s, tmp, cache) for s in case['files']]
+            with quiet():
+                g = m.mulgrid(paths[0]) if case['first'] == 'ctor' else m.mulgrid().read(paths[0])
+            for i, p in enumerate(paths[1:], 1):
+                before = g.block_order
+                try:
+                    with quiet(): g.read(p)
+                except Exception as e:
+                    V.append(seq_read_raises(before, p, e, kind, 'read() of file %d on the object that holds file %d' % (i, i - 1)))
+                    break
+                V += seq_compare(g, p, tmp, kind, 'g = mulgrid(file 0)%s; g.read(file %d)' % (''.join('; g.read(file %d)' % j for j in range(1, i)), i))
+        elif kind == 'reload':
+            f0 = seq_path(case['recipe'], tmp, cache)
+            with quiet():
+                g = build(case['recipe']) if case['start'] == 'built' else m.mulgrid(f0)
+            f = str(tmp / 'seq_saved.dat')
+            with quiet(): g.write(f)
+            try:
+                with quiet():
+                    for ed in case['edits']: seq_edit(g, ed)
+            except Exception as e:
+                raise Skip('edit-raises:%s:%s' % (ed[0], type(e).__name__))
+            before = g.block_order
+            try:
+                with quiet(): g.read(f)
+            except Exception as e:
+                V.append(seq_read_raises(before, f, e, kind, 'g.write(f); %s; g.read(f)' % '; '.join(e2[0] for e2 in case['edits'])))
+            else:
+                V += seq_compare(g, f, tmp, kind, 'g.write(f); %s; g.read(f)' % '; '.join(e2[0] for e2 in case['edits']))
+        elif kind == 'order':
+            paths = [seq_path(s, tmp, cache) for s in case['files']]
+            first = []
+            with quiet():
+                for p in paths: first.append(seq_state(m.mulgrid(p)))
+                for i in case['perm']:
+                    again = seq_state(m.mulgrid(paths[i]))
+                    for sec in sorted(again):
+                        if _cj(again[sec]) != _cj(first[i][sec]):
+                            V.append(dict(key='sequence:order:' + sec,
+                                          what='file %d read after files %s gives other %s than when it was read in the order 0..%d: %s'
+                                          % (i, case['perm'][:case['perm'].index(i)], sec, len(paths) - 1, _first_diff(again[sec], first[i][sec]))))
+        else:
+            raise ValueError(kind)
+    except Skip as s:
+        return [], {'skip': str(s)}
+    return V, info
+
+
+def seq_facet(ctx, res, rng, n_reuse, n_reload, n_order):
+    fs = res.facet('geo_sequence')
+    known = core.known_keys(ID)
+    cache = {}
+    noted = set()
+    for case in gen_seq_cases(rng, n_reuse, n_reload, n_order):
+        V, info = seq_case(case, ctx.tmp, cache)
+        kind = case['seq']
+        if info.get('skip'):
+            res.count('sequence:skipped:' + info['skip'].split(':')[0])
+            continue
+        fs['cases'] += 1
+        res.evaluations += 1
+        res.count('sequence:' + kind)
+        if kind == 'reload':
+            for ed in case['edits']: res.count('sequence:edit:' + ed[0])
+        res.distinct.add('seq ' + _cj(case))
+        for v in V:
+            v['case'] = case
+            if v['key'] == KEY_CARRY and KEY_CARRY not in known:
+                # documented behaviour of fixed_format_file.read_value_line ("Null values are ignored") meeting an object in use; no
+                # clause of the property names blank header fields: recorded with a replay for the lead, no verdict
+                res.count('sequence:blank header field keeps the old value (noted, no verdict)')
+                if kind not in noted:
+                    noted.add(kind)
+                    p = core.write_replay(ID, {'property': ID, 'kind': 'sequence-note', 'key': v['key'], 'what': v['what'], 'case': case})
+                    ctx.notes.append('sequence [%s] %s (replay %s)' % (kind, v['what'][:260], p))
+                continue
+            res.violations.append(v)
+
+
 # ------------------------------------------------------------------ malformed files (model fidelity on error paths)
 
 def damage(rng, text):
@@ -967,7 +1284,8 @@ def _run(ctx, only_oracle=False, n=None, seed_shift=0):
     res.rule = ('one case = one geometry (recipe: rectangular with generated spacings/origin or a shipped geometry with a refine/reduce/'
                 'rotate/translate derivation; convention, atmosphere type, unit type, block order, surfaces, specified centres, wells) taken '
                 'through write -> read -> write on the real code and the model; non-trivial = distinct recipe whose geometry has at least one '
-                'column and one layer and was written successfully')
+                'column and one layer and was written successfully; plus one case = one sequence (reuse / reload / order) on the same object or '
+                'in the same process, judged against fresh objects (distinct = distinct sequence description)')
     m = mg()
     fw, frd, fmal = res.facet('geo_write'), res.facet('geo_read'), res.facet('geo_malformed')
     fcan = res.facet('geo_canon')
@@ -1105,6 +1423,9 @@ def _run(ctx, only_oracle=False, n=None, seed_shift=0):
             meta.append(('read', {'base': 'shipped-original', 'file': f}, R, False))
 
     flush()
+    # ---- sequences on one object / in one process (hidden state), judged against fresh objects
+    if not seed_shift: seq_facet(ctx, res, ctx.rng('geo_sequence'), *((14, 14, 3) if ctx.quick else (80, 80, 12)))
+    else: seq_facet(ctx, res, ctx.rng('geo_sequence%d' % seed_shift), 8, 8, 2)
     res.exhaustive = False
     return res
 
@@ -1197,6 +1518,16 @@ def search(ctx, seconds, res):
 
 def replay(ctx, payload):
     c = payload.get('case') or {}
+    if 'seq' in c:
+        V, info = seq_case(c, ctx.tmp)
+        key = payload.get('key')
+        known = core.known_keys(ID)
+        if payload.get('kind') == 'sequence-note':
+            return False, 'sequence note (no verdict): ' + ('\n'.join('  ' + v['key'] + ': ' + v['what'] for v in V) or 'not seen any more')
+        hits = [v for v in V if v['key'] == key] or [v for v in V if v['key'] not in known and v['key'] != KEY_CARRY]
+        txt = 'sequence %s\n' % json.dumps(c)[:600] + (('  skipped: ' + info['skip']) if info.get('skip') else
+                                                     ('\n'.join('  ' + v['key'] + ': ' + v['what'] for v in V) or '  every step agrees with a fresh object'))
+        return bool(hits), txt
     if 'recipe' not in c:
         return False, 'replay file names what no longer checks: %s' % payload.get('broken')
     if payload.get('kind') == 'observation':
